@@ -54,11 +54,13 @@ func VerifyFunction(p *Program, spec *Spec, fn *ssa.Function, con *Contract) (re
 	}()
 	st := NewState()
 	var args []Val
+	s.entryParams = map[string]bool{}
 	for i, prm := range fn.Params {
 		name := prm.Name()
 		if name == "" || name == "_" {
 			name = fmt.Sprintf("arg%d", i)
 		}
+		s.entryParams[name] = true
 		v := s.symVal(name, prm.Type())
 		args = append(args, v)
 		x.args[name] = v
@@ -153,6 +155,27 @@ func VerifyFunction(p *Program, spec *Spec, fn *ssa.Function, con *Contract) (re
 		// frame: components written on this path must be covered by `modifies`
 		var bad []string
 		for c := range st.writes {
+			if strings.HasPrefix(c, "heap:") {
+				// heap frame: an object that existed before the call (reachable from a parameter) was
+				// written: the contract must say so, callers forget what they knew of it
+				obj, covered := c[len("heap:"):], false
+				for _, m := range con.Modifies {
+					switch {
+					case strings.HasPrefix(m, "*"):
+						covered = covered || strings.HasPrefix(obj, m[1:]+"->") || strings.HasPrefix(obj, m[1:]+"[]")
+					case strings.HasPrefix(m, "elems:"):
+						covered = covered || strings.HasPrefix(obj, m[len("elems:"):]+"[]")
+					}
+				}
+				if !covered {
+					root := s.entryRoot(obj)
+					if root == "" {
+						root = obj
+					}
+					bad = append(bad, "object "+obj+" reachable from parameter "+root+" (needs `modifies *<path>`)")
+				}
+				continue
+			}
 			if !modset[c] {
 				bad = append(bad, c)
 			}
